@@ -19,7 +19,10 @@ ANCHORS = {"src/skmatter/preprocessing/_data.py": [
 MAX_REPORTS = 8      # replay files written per run (every failing case is still counted)
 TOL = 1e-10          # column-wise relative tolerance of the model/implementation comparison
 FAMILIES = ["gauss", "offset", "mixed_scales", "integer", "const_col", "dup_rows", "near_const"]
-WKINDS = ["none", "none", "uniform", "random", "zeros", "integer"]
+WKINDS = ["none", "none", "uniform", "random", "zeros", "integer", "scaled", "near_equal"]
+# common factors for the "scaled" weight kind: powers of two (the normalised weights are then bit-identical to
+# those of the unscaled vector) and powers of ten, 1e-12 ... 1e12
+WFACTORS = [2.0 ** -40, 2.0 ** -27, 2.0 ** -10, 2.0 ** 20, 2.0 ** 40, 1e-12, 1e-9, 1e-6, 1e-3, 1e6, 1e12]
 
 
 # ------------------------------------------------------------------------------ generation
@@ -80,7 +83,25 @@ def gen_w(rng, n, kind):
         if sum(1 for x in w if x > 0) < 2:
             w[0], w[-1] = 1.0, 2.0
         return w
+    if kind == "scaled":
+        return gen_w_scaled(rng, n)[0]
+    if kind == "near_equal":
+        # almost uniform weights: relative spread 1e-6 ... 1e-3 around a common value of any magnitude
+        c = rng.choice([1.0, 0.5, 3.0, 1e-3, 1e3, 1e-9])
+        spread = 10 ** rng.uniform(-6, -3)
+        w = [c * (1 + spread * rng.uniform(-1, 1)) for _ in range(n)]
+        w[rng.randrange(n)] = c * (1 + spread)        # the spread is attained
+        return w
     raise ValueError(kind)
+
+
+def gen_w_scaled(rng, n):
+    """(weights, base vector, common factor): a non-uniform base vector (random / with zeros / integer
+    multiplicities) times an extreme common factor — the same distribution at another overall magnitude"""
+    bkind = rng.choice(["random", "zeros", "integer"])
+    base = gen_w(rng, n, bkind)
+    f = rng.choice(WFACTORS)
+    return [f * x for x in base], base, f, bkind
 
 
 def gen_case(rng, quick):
@@ -94,7 +115,12 @@ def gen_case(rng, quick):
     fam = rng.choice(FAMILIES)
     X = gen_X(rng, n, d, fam)
     wkind = rng.choice(WKINDS)
-    w = gen_w(rng, n, wkind)
+    extra = {}
+    if wkind == "scaled":
+        w, base, f, bkind = gen_w_scaled(rng, n)
+        extra = dict(w_base=base, w_factor=f, w_base_kind=bkind)
+    else:
+        w = gen_w(rng, n, wkind)
     # new data: around the training distribution, or unrelated
     if rng.random() < 0.7:
         Y = [[X[rng.randrange(n)][j] * rng.choice([1.0, 1.0, 0.5, -1.0, 2.0]) + rng.choice([0.0, 0.25])
@@ -106,7 +132,7 @@ def gen_case(rng, quick):
     return dict(X=X, w=w, Y=Y, wkind=wkind, family=fam, exact=False,
                 with_mean=rng.random() < 0.6, with_std=rng.random() < 0.75,
                 column_wise=rng.random() < 0.5, rtol=rtol, atol=atol,
-                copy=rng.random() < 0.3, as_int=(fam == "integer" and rng.random() < 0.5))
+                copy=rng.random() < 0.3, as_int=(fam == "integer" and rng.random() < 0.5), **extra)
 
 
 def gen_exact_case(rng):
@@ -278,7 +304,7 @@ def oracle(case, rec):
     return relational(case, rec)
 
 
-REL = dict(zero_weight_rows=0, weight_scale=0, idempotent=0, shift=0, rescale=0)
+REL = dict(zero_weight_rows=0, weight_scale=0, idempotent=0, shift=0, rescale=0, scaled_vs_base=0)
 
 
 def relational(case, rec):
@@ -290,8 +316,26 @@ def relational(case, rec):
     colmax = np.max(np.abs(X), axis=0)
     s = np.array(rec["scale"])
     # integer weights == repeated rows
-    if case["wkind"] == "integer":
-        reps = [int(x) for x in case["w"]]
+    if case["wkind"] == "scaled" and "w_factor" in case:
+        # the same distribution at another overall magnitude (C11_weight_scale_invariant): compare with the
+        # fit on the base vector.  A power-of-two factor scales every weight and their sum exactly, so the
+        # normalised weights — hence mean_ and scale_ — agree bit for bit; otherwise rounding of f*w only.
+        REL["scaled_vs_base"] = REL.get("scaled_vs_base", 0) + 1
+        f = case["w_factor"]
+        r2 = run_impl(case, w=case["w_base"])
+        if r2["raised"]:
+            if not guard_margin(case)[1]:
+                return "fit accepts the weights %r times the vector it rejects" % f
+        else:
+            pow2 = math.frexp(f)[0] == 0.5
+            dm = np.abs(np.array(r2["mean"]) - rec["mean"])
+            ds = np.abs(np.array(r2["scale"]) - s)
+            if pow2 and (np.any(dm != 0) or np.any(ds != 0)):
+                return "mean_/scale_ change when all sample weights are multiplied by the power of two %r" % f
+            if np.any(dm > 1e-9 * colmax) or np.any(ds > 1e-8 * np.abs(s) * (1 + 1e-6 * np.max(colmax / np.abs(s)))):
+                return "mean_/scale_ change when all sample weights are multiplied by %r" % f
+    if case["wkind"] == "integer" or case.get("w_base_kind") == "integer":
+        reps = [int(x) for x in (case["w"] if case["wkind"] == "integer" else case["w_base"])]
         Xrep = [row for row, c in zip(case["X"], reps) for _ in range(c)]
         r2 = run_impl(case, X=Xrep, w=None)
         if r2["raised"]:
@@ -412,7 +456,13 @@ def gen_trace(rng, quick):
             fam = rng.choice(FAMILIES + ["const_col"])
             X = gen_X(rng, n, d, fam)
             wkind = rng.choice(WKINDS)
-            ops.append(dict(op="fit", X=X, w=gen_w(rng, n, wkind), wkind=wkind, family=fam,
+            extra = {}
+            if wkind == "scaled":
+                w, base, f, bkind = gen_w_scaled(rng, n)
+                extra = dict(w_base=base, w_factor=f, w_base_kind=bkind)
+            else:
+                w = gen_w(rng, n, wkind)
+            ops.append(dict(op="fit", X=X, w=w, wkind=wkind, family=fam, wextra=extra,
                             Yprobe=[[rng.gauss(0, 3) for _ in range(d)] for _ in range(2)]))
             if n >= 2:
                 width = d
@@ -455,7 +505,7 @@ def run_trace_impl(trace):
             elif op["op"] == "fit":
                 X = np.array(op["X"], dtype=float)
                 w = None if op["w"] is None else np.array(op["w"], dtype=float)
-                case = dict(par, X=op["X"], w=op["w"], Y=op["Yprobe"], wkind=op["wkind"])
+                case = dict(par, X=op["X"], w=op["w"], Y=op["Yprobe"], wkind=op["wkind"], **op.get("wextra", {}))
                 try:
                     sc.fit(X.copy(), sample_weight=w)
                 except ValueError as e:
@@ -784,7 +834,7 @@ def run(ctx):
         else:
             msg = relational(c, r)
         if not r["raised"]:
-            stats["integer_weight_cases"] += c["wkind"] == "integer"
+            stats["integer_weight_cases"] += (c["wkind"] == "integer" or c.get("w_base_kind") == "integer")
             stats["standardscaler_compared"] += (c["w"] is None and c["column_wise"] and c["with_std"] and c["with_mean"])
         if msg:
             reported.add(i)
